@@ -501,7 +501,7 @@ class Scheduler(BaseScheduler[Job, Callable[..., Coroutine[Any, Any, None]]]):
             args=args,
             kwargs=kwargs,
             max_attempts=1,
-            tags=tags,
+            tags=set(tags) if tags else set(),
             alias=alias,
         )
 
